@@ -1,0 +1,17 @@
+//go:build verif
+
+package semantic
+
+// Contracts for the gowp verifier (/verif). Comment-only file.
+
+// Parser hooks receive the statement and the consumed element only: whatever they do, the objects of
+// package grammar (look-ahead buffer, parser, grammar table) are out of their reach - package
+// semantic does not import package grammar and cannot even name its types.
+//@ functype ClauseHook preserves package github.com/google/badwolf/bql/grammar
+//@ functype ElementHook preserves package github.com/google/badwolf/bql/grammar
+
+//@ props C18 C08
+//@ func NewConsumedSymbol
+//@   pure
+//@ func NewConsumedToken
+//@   pure
